@@ -374,7 +374,6 @@ namespace Dir
 open Cedar
 
 structure SendSide where
-  encIV : IV
   encCtr : Nat
   finSendAAD : Bool
   sendBuf : Bytes
@@ -395,8 +394,12 @@ structure RecvSide where
   recvWritten : Bool
   deriving DecidableEq, Repr, Inhabited
 
+/-- read by both directions, written by neither once the stream is established. `encIV` (Go:
+    `encryptIV`) is here: the sender reads it for every nonce, the receiver reads it to refuse a
+    first frame that announces this endpoint's own base IV (fix D16); only `SetSymmetricKey` writes it. -/
 structure Shared where
   key : Option Nat
+  encIV : IV
   encrypted : Bool
   authenticated : Bool
   finalSend : Option Digest
@@ -406,15 +409,15 @@ structure Shared where
   deriving DecidableEq, Repr, Inhabited
 
 def sendSide (s : Stream) : SendSide :=
-  ⟨s.encIV, s.encCtr, s.finSendAAD, s.sendBuf, s.sendEOM, s.dig.sendFed, s.dig.sendWritten⟩
+  ⟨s.encCtr, s.finSendAAD, s.sendBuf, s.sendEOM, s.dig.sendFed, s.dig.sendWritten⟩
 def recvSide (s : Stream) : RecvSide :=
   ⟨s.decIV, s.decCtr, s.finRecvAAD, s.recvBuf, s.bytesRead, s.totalMsg, s.inMessage, s.dig.recvFed, s.dig.recvWritten⟩
 def shared (s : Stream) : Shared :=
-  ⟨s.key, s.encrypted, s.authenticated, s.dig.finalSend, s.dig.finalRecv, s.beforeSecret, s.peerAddr⟩
+  ⟨s.key, s.encIV, s.encrypted, s.authenticated, s.dig.finalSend, s.dig.finalRecv, s.beforeSecret, s.peerAddr⟩
 
 def assemble (a : SendSide) (r : RecvSide) (c : Shared) : Stream :=
   { key := c.key, encrypted := c.encrypted, authenticated := c.authenticated,
-    encIV := a.encIV, decIV := r.decIV, encCtr := a.encCtr, decCtr := r.decCtr,
+    encIV := c.encIV, decIV := r.decIV, encCtr := a.encCtr, decCtr := r.decCtr,
     finSendAAD := a.finSendAAD, finRecvAAD := r.finRecvAAD,
     dig := { sendFed := a.sendFed, recvFed := r.recvFed, sendWritten := a.sendWritten, recvWritten := r.recvWritten,
              finalSend := c.finalSend, finalRecv := c.finalRecv },
@@ -568,7 +571,7 @@ structure Foot where
   gwrites : List String := []
 
 /-- fields no established-traffic operation writes -/
-def sharedConst : List String := ["conn", "reader", "writer", "gcm", "encrypted", "peerAddr", "authenticated", "encryptKey", "timeout"]
+def sharedConst : List String := ["conn", "reader", "writer", "gcm", "encrypted", "peerAddr", "authenticated", "encryptKey", "encryptIV", "timeout"]
 /-- the handshake digests: written only while `final…Digest == nil` (frozen before traffic starts) -/
 def digestFields : List String := ["sendDigest", "recvDigest", "sendDigestWritten", "recvDigestWritten", "finalSendDigest", "finalRecvDigest"]
 /-- the crypto-for-secret toggle: written only when a key exists and encryption is off -/
@@ -583,7 +586,7 @@ def sendCore : Foot :=
 
 def recvCore : Foot :=
   { role := .recv,
-    reads := ["conn", "reader", "gcm", "encrypted", "decryptCounter", "decryptIV", "finishedRecvAAD",
+    reads := ["conn", "reader", "gcm", "encrypted", "encryptIV", "decryptCounter", "decryptIV", "finishedRecvAAD",
               "finalSendDigest", "finalRecvDigest", "recvDigest"],
     greads := ["recvDigestWritten", "sendDigest", "sendDigestWritten"],
     gwrites := ["decryptCounter", "decryptIV", "finishedRecvAAD", "recvDigest", "recvDigestWritten", "finalSendDigest", "finalRecvDigest"] }
@@ -641,7 +644,9 @@ def inter (a b : List String) : List String := a.filter (fun x => b.contains x)
 /-- The declaration keeps the directions apart: whatever a send-role method may write and a
     recv-role method may touch (or the other way round) is a digest field or a toggle field, and it
     is written under a guard only; an observer touches shared-constant fields only, and no send /
-    recv method writes one of those unconditionally. -/
+    recv method writes one of those unconditionally; the shared-constant fields — among them
+    `encryptIV`, which since fix D16 the receive path READS (reflection check) next to the send
+    path — are written by no traffic method at all (the guarded toggle of `encrypted` aside). -/
 def directionsDisjoint : Bool :=
   declaredFootprints.all (fun p => declaredFootprints.all (fun q =>
     match p.2.role, q.2.role with
@@ -653,7 +658,13 @@ def directionsDisjoint : Bool :=
     | .send, .observe | .recv, .observe =>
       subset q.2.reads sharedConst && (inter p.2.writes q.2.reads).isEmpty &&
       subset (inter p.2.gwrites q.2.reads) toggleFields
-    | _, _ => true))
+    | _, _ => true)) &&
+  -- the shared-constant fields (key, base IV `encryptIV`, connection, …) are read by both
+  -- directions and written by neither: a traffic method writes one only as the guarded toggle
+  declaredFootprints.all (fun p =>
+    match p.2.role with
+    | .send | .recv => subset (inter (p.2.writes ++ p.2.gwrites) sharedConst) toggleFields
+    | _ => true)
 
 end Dir
 
